@@ -151,7 +151,7 @@ open Base Base.Case
       * reports what it reported (value None) for `upper_or_lower`, and the fix does nothing,
       * reports the value that is already there for the pattern styles (camelCase … regex),
     so a second fix is the identity in every case. -/
-theorem bfull_case_idem {E : Env} {fold : Str → Str} {lc uc fc : Char → Char}
+theorem bfull_case_idem {E : Case.Env} {fold : Str → Str} {lc uc fc : Char → Char}
     (T : CharWiseIdem E fold lc uc fc) (owner : String) (ho : owner ∈ Base.caseTokenOwners)
     (params : Base.KV) (p : Params) (old new : List Tok) (a : Action)
     (hnd : NoCaseDup E p.exceptions)
@@ -168,7 +168,7 @@ theorem bfull_case_idem {E : Env} {fold : Str → Str} {lc uc fc : Char → Char
 
 /-- `upper_or_lower` is unrepairable: the analysis records the value None and `_fix_violation`
     returns the region unchanged (the violation stays, the file does not change) -/
-theorem bfull_case_upper_or_lower_unrepairable {E : Env} {fold : Str → Str} {lc uc fc : Char → Char}
+theorem bfull_case_upper_or_lower_unrepairable {E : Case.Env} {fold : Str → Str} {lc uc fc : Char → Char}
     (T : CharWise E fold lc uc fc) (owner : String) (ho : owner ∈ Base.caseTokenOwners)
     (params : Base.KV) (p : Params) (old : List Tok) (a : Action)
     (hst : p.style = .upperOrLower) (hx : ∀ t, old[0]? = some t → p.exceptions.contains t.val = false)
@@ -197,7 +197,7 @@ theorem bfull_case_idem_dup_witness :
 
 /-- the three `consistent_*` owners: the spelling the analysis chooses is a fixed point of the
     choice — the token asks for nothing once it has it -/
-theorem bfull_case_consistent_idem (E : Env) (ids : List Str) (v e : Str) :
+theorem bfull_case_consistent_idem (E : Case.Env) (ids : List Str) (v e : Str) :
     (Consistent.expectedFirst E ids v = some e → Consistent.expectedFirst E ids e = none) ∧
     (Consistent.expectedMap E ids v = .ok (some e) → Consistent.expectedMap E ids e = .ok none) :=
   ⟨Consistent.expectedFirst_idem, Consistent.expectedMap_idem⟩
